@@ -394,9 +394,12 @@ pub(crate) fn convert_doc(svg_doc: &svgtree::Document, opt: &Options) -> Result<
         &mut cache,
     );
     tree.collect_paint_servers();
-    tree.root.collect_clip_paths(&mut tree.clip_paths);
-    tree.root.collect_masks(&mut tree.masks);
-    tree.root.collect_filters(&mut tree.filters);
+    tree.root
+        .collect_clip_paths(&mut tree.clip_paths, &mut HashSet::new());
+    tree.root
+        .collect_masks(&mut tree.masks, &mut HashSet::new());
+    tree.root
+        .collect_filters(&mut tree.filters, &mut HashSet::new());
     tree.root.calculate_bounding_boxes();
 
     // The fontdb might have been mutated and we want to apply these changes to
